@@ -67,16 +67,17 @@ class InvBuilder(object):
             And(sl_ok(Select(H('_sections'), r), r, 0, SEC), sl_ok(Select(H('_props'), r), r, 1, PROP),
                 parent_ok(Select(H('_parent'), r), True),
                 Is('VStr', Select(H('_name'), r)), Is('VStr', Select(H('_id'), r)))),
-            patterns=[(cls_of(r),)])))
+            patterns=[(cls_of(r),), (Select(H('_sections'), r),), (Select(H('_props'), r),),
+                      (Select(H('_parent'), r),)])))
         out.append(('T.document', Forall([r], Implies(
             And(alloc(r), isc(r, DOC)),
             And(sl_ok(Select(H('_sections'), r), r, 0, SEC), Is('VStr', Select(H('_id'), r)))),
-            patterns=[(cls_of(r),)])))
+            patterns=[(cls_of(r),), (Select(H('_sections'), r),)])))
         out.append(('T.property', Forall([r], Implies(
             And(alloc(r), isc(r, PROP)),
             And(parent_ok(Select(H('_parent'), r), False),
                 Is('VStr', Select(H('_name'), r)), Is('VStr', Select(H('_id'), r)))),
-            patterns=[(cls_of(r),)])))
+            patterns=[(cls_of(r),), (Select(H('_parent'), r),)])))
         l = bvar('l!t', INT)
         i = bvar('i!t', INT)
         j = bvar('j!t', INT)
@@ -100,11 +101,15 @@ class InvBuilder(object):
             And(alloc(p), isc(p, SEC), Le(intlit(0), i), Lt(i, Select(llen, P(p)))),
             Eq(Select(H('_parent'), Acc('rv', item(P(p), i))), VRef(p))),
             patterns=[(item(P(p), i),)])))
-        # I2: the item at index i knows its position (=> no duplicates)
-        out.append(('I2.pos', Forall([l, i], Implies(
-            And(alloc(l), isc(l, SL), Le(intlit(0), i), Lt(i, Select(llen, l))),
-            Eq(Select(pos, Acc('rv', item(l, i))), i)),
-            patterns=[(item(l, i),)])))
+        # I2: the item at index i of a container's child list knows its position (=> no duplicates)
+        out.append(('I2.sections', Forall([p, i], Implies(
+            And(alloc(p), Or(isc(p, SEC), isc(p, DOC)), Le(intlit(0), i), Lt(i, Select(llen, S(p)))),
+            Eq(Select(pos, Acc('rv', item(S(p), i))), i)),
+            patterns=[(item(S(p), i),)])))
+        out.append(('I2.props', Forall([p, i], Implies(
+            And(alloc(p), isc(p, SEC), Le(intlit(0), i), Lt(i, Select(llen, P(p)))),
+            Eq(Select(pos, Acc('rv', item(P(p), i))), i)),
+            patterns=[(item(P(p), i),)])))
         # I3: an object that reports a parent is listed there (at its ghost position)
         c = bvar('c!t', INT)
         par = Select(H('_parent'), c)
@@ -121,10 +126,14 @@ class InvBuilder(object):
             patterns=[(Select(H('_parent'), c),)])))
         # I6: sibling names pairwise different
         name = lambda ll, ii: Select(H('_name'), Acc('rv', item(ll, ii)))   # noqa: E731
-        out.append(('I6.names', Forall([l, i, j], Implies(
-            And(alloc(l), isc(l, SL), Le(intlit(0), i), Lt(i, j), Lt(j, Select(llen, l))),
-            Not(Eq(name(l, i), name(l, j)))),
-            patterns=[(item(l, i), item(l, j))])))
+        out.append(('I6.sections', Forall([p, i, j], Implies(
+            And(alloc(p), Or(isc(p, SEC), isc(p, DOC)), Le(intlit(0), i), Lt(i, j), Lt(j, Select(llen, S(p)))),
+            Not(Eq(name(S(p), i), name(S(p), j)))),
+            patterns=[(item(S(p), i), item(S(p), j))])))
+        out.append(('I6.props', Forall([p, i, j], Implies(
+            And(alloc(p), isc(p, SEC), Le(intlit(0), i), Lt(i, j), Lt(j, Select(llen, P(p)))),
+            Not(Eq(name(P(p), i), name(P(p), j)))),
+            patterns=[(item(P(p), i), item(P(p), j))])))
         # I7: names non-empty, ids canonical
         out.append(('I7.name_id', Forall([r], Implies(
             And(alloc(r), Or(isc(r, SEC), isc(r, PROP))),
@@ -134,6 +143,39 @@ class InvBuilder(object):
         out.append(('I7.doc_id', Forall([r], Implies(
             And(alloc(r), isc(r, DOC)), App('canon_uuid', BOOL, Acc('sv', Select(H('_id'), r)))),
             patterns=[(cls_of(r),)])))
+        # ---- I4: acyclicity through the ghost ancestor relation and depth (+ lemma invariants)
+        AAB = '(Array Int (Array Int Bool))'
+        anc = self.arr(heap, 'g:anc', 'H0_anc', AAB)
+        dep = self.arr(heap, 'g:depth', 'H0_depth', AI)
+        A = lambda x, y: Select(Select(anc, x), y)                       # noqa: E731
+        a = bvar('a!t', INT)
+        b = bvar('b!t', INT)
+        childish = Or(isc(c, SEC), isc(c, PROP))
+        out.append(('I4.anc_def', Forall([c, a], Implies(
+            And(alloc(c), childish, Is('VRef', par)),
+            Eq(A(c, a), Or(Eq(a, pr), A(pr, a)))),
+            patterns=[(A(c, a),)])))
+        out.append(('I4.roots', Forall([c, a], Implies(
+            And(alloc(c), Or(And(childish, Is('VNone', par)), isc(c, DOC))),
+            Not(A(c, a))),
+            patterns=[(A(c, a),)])))
+        out.append(('I4.anc_types', Forall([c, a], Implies(A(c, a), And(alloc(a), Or(isc(a, SEC), isc(a, DOC)))),
+                                           patterns=[(A(c, a),)])))
+        out.append(('I4.irreflexive', Forall([c], Not(A(c, c)), patterns=[(A(c, c),)])))
+        out.append(('I4.transitive', Forall([c, a, b], Implies(And(A(c, a), A(a, b)), A(c, b)),
+                                            patterns=[(A(c, a), A(a, b))])))
+        out.append(('I4.linear', Forall([c, a, b], Implies(And(A(c, a), A(c, b)),
+                                                            Or(Eq(a, b), A(a, b), A(b, a))),
+                                        patterns=[(A(c, a), A(c, b))])))
+        out.append(('I4.depth_mono', Forall([c, a], Implies(A(c, a), Lt(Select(dep, a), Select(dep, c))),
+                                            patterns=[(A(c, a),)])))
+        out.append(('I4.depth_def', Forall([c], And(
+            Le(intlit(0), Select(dep, c)),
+            Implies(And(alloc(c), childish, Is('VRef', par)),
+                    Eq(Select(dep, c), Add(Select(dep, pr), intlit(1)))),
+            Implies(And(alloc(c), Or(And(childish, Is('VNone', par)), isc(c, DOC))),
+                    Eq(Select(dep, c), intlit(0)))),
+            patterns=[(Select(dep, c),)])))
         if only:
             out = [(n, f) for n, f in out if any(n.startswith(o) for o in only)]
         return out
